@@ -257,6 +257,16 @@ func (lf *LockFlow) mayAt(at ssa.Instruction, key lockKey) (int, bool) {
 func assumeGlobalBool(pkgShort, name string, val bool) edgeAssume {
 	return func(ifi *ssa.If) []int {
 		cd := normCond(ifi.Cond)
+		// go/ssa keeps `if <constant>`: under a build configuration where the flag is a constant,
+		// follow the constant
+		if cd.Kind == CondBool {
+			if bv, ok := boolConst(cd.Base); ok {
+				if bv != cd.Neg {
+					return []int{0}
+				}
+				return []int{1}
+			}
+		}
 		if cd.Kind != CondBool {
 			return nil
 		}
